@@ -74,6 +74,7 @@ def outcomeStr {α} (o : Outcome α) (f : α → String) : String :=
   | .err "parse" => "err=parse"
   | .err "notfound" => "err=notfound"
   | .err "sleepfirst" => "err=sleepfirst"
+  | .err "negweight" => "err=negweight"
   | .err e => "err=other:" ++ e
   | .panic p => "panic:" ++ p
 
@@ -126,9 +127,6 @@ def handleProv (kv : List (String × String)) (impl : String) : String × String
     let deliv := (List.range n).filterMap fun k => deliver ring k
     "ok ring=" ++ String.intercalate "|" (deliv.map fun a => esc (String.ofList a.name)) ++
       " sc=" ++ String.intercalate ";" (dedup (deliv.map descr))
-  -- negative weights are outside the property's domain and a repair that refuses them is pending elsewhere
-  -- (fixes/C13-scenario-negative-weight.diff): nothing is predicted for them
-  let mobs := if scs.any (fun sc => sc.weight < 0) then "-" else mobs
   let verdict :=
     match domain reqNames scs with
     | some "leading-sleep" =>
